@@ -94,7 +94,8 @@ func runPipelineBehavioursCfg(c *ev.Ctx, unpubOn bool, behaviours [][]pipe.Step,
 		if err != nil {
 			ev.Fatal("pipeline wiring: %v", err)
 		}
-		p.ViaREST = bi%2 == 1 // every other behaviour goes through the real REST handlers
+		p.ViaREST = bi%2 == 1                             // every other behaviour goes through the real REST handlers
+		p.ForeignNS = foreignNamespaceEntries && bi%4 < 2 // half of the behaviours, REST and direct alike
 		for i := 0; i < len(h); i++ {
 			if h[i].A == "Observe" {
 				j := i
@@ -219,7 +220,12 @@ func hasFaultOrTwoTxns(h []pipe.Step) bool {
 }
 
 // C15: transactions store one stamped operation per DID, all-or-nothing; refused intake leaves no trace.
+// foreignNamespaceEntries: in half of the behaviours realise the Garbage ledger entries as transactions of a foreign namespace (C15 only: the
+// other checks keep the unreadable-anchor realisation their seeded changes were evaluated with).
+var foreignNamespaceEntries bool
+
 func C15(c *ev.Ctx) {
+	foreignNamespaceEntries = true
 	design := pipelineDesign(c)
 	stampInIsolation(c, design.Tagged["STAMP"])
 	n := 120
@@ -235,7 +241,7 @@ func C15(c *ev.Ctx) {
 		bs := pipelineBehaviours(c, cfg, n, rng.Int63n(1<<30))
 		runPipelineBehaviours(c, unpub, bs, hasFaultOrTwoTxns, "pipeline-trace-rejected")
 	}
-	c.Cov.Rule = "TLC simulates Pipeline.tla (2 DIDs, <= 6 client submissions of create/update/recover/deactivate, queue-add failures, batch-write failures, garbage and duplicate-carrying ledger entries, unreadable / unstorable transactions, protocol upgrade, with and without unpublished store); each behaviour is executed on the fully wired real pipeline, every other one through the real REST handlers (consecutive Observe steps are delivered to the real Observer as one notification) and the recorded trace - replies, queue, unpublished store, every stored operation with time/number/version/canonical+equivalent reference stamps, Put calls per transaction, resolution views - is validated by TLC against the specification. Non-trivial: >= 1 fault or >= 2 transactions."
+	c.Cov.Rule = "TLC simulates Pipeline.tla (2 DIDs, <= 6 client submissions of create/update/recover/deactivate, queue-add failures, batch-write failures, garbage (unreadable anchor / foreign namespace) and duplicate-carrying ledger entries, unreadable / unstorable transactions, protocol upgrade, with and without unpublished store); each behaviour is executed on the fully wired real pipeline, every other one through the real REST handlers (consecutive Observe steps are delivered to the real Observer as one notification) and the recorded trace - replies, queue, unpublished store, every stored operation with time/number/version/canonical+equivalent reference stamps, Put calls per transaction, resolution views - is validated by TLC against the specification. Non-trivial: >= 1 fault or >= 2 transactions."
 	c.Finish("model_checking")
 }
 
